@@ -618,7 +618,7 @@ func kValue(p string) string { return "k-" + strings.NewReplacer("/", "-", ".vue
 const kFill = "k-fill"
 
 // enumGraphs enumerates every graph over slots (each absent or present naming one of names)
-// x every page option; kmask chooses which sources define k as a function of the running index.
+// x every page option, calling f with a running index; it stops when f returns false.
 func enumGraphs(slots []string, names []string, pageNames []string, f func(i int, c Case) bool) int {
 	n := 0
 	st := make([]int, len(slots))
